@@ -236,12 +236,42 @@ def c02_rmuse(R):
             )
             if f"isinstance({rm}, RM)" in tests:
                 arm_rets.append((r, tests))
+        def no_rounding(t, pol=True):
+            """the fact says that no rounding happens on this path: the mode is the default one (the native arithmetic
+            rounds to nearest even), or an operand is a special value (NaN, infinity, zero) and the result is exact"""
+            if isinstance(t, ast.UnaryOp) and isinstance(t.op, ast.Not):
+                return no_rounding(t.operand, not pol)
+            if isinstance(t, ast.BoolOp):
+                disj = isinstance(t.op, ast.Or) == pol  # a true `or` / a false `and`: every alternative has to qualify
+                rs = [no_rounding(v, pol) for v in t.values]
+                return all(rs) if disj else any(rs)
+            if isinstance(t, ast.Call) and (dotted(t.func) or "").split(".")[-1] in ("isfinite", "isnan", "isinf"):
+                return (dotted(t.func) or "").endswith("isfinite") != pol or not (dotted(t.func) or "").endswith("isfinite")
+            if isinstance(t, ast.Compare) and len(t.ops) == 1:
+                a_, o_, b_ = t.left, t.ops[0], t.comparators[0]
+                txt = (ast.unparse(a_), ast.unparse(b_))
+                if rm in txt and any("NearestTiesEven" in x or x.endswith("RM.default()") for x in txt):
+                    return isinstance(o_, (ast.Eq, ast.Is)) == pol
+                if isinstance(b_, ast.Constant) and b_.value == 0 and isinstance(o_, (ast.Eq, ast.LtE, ast.Lt)):
+                    return pol
+            return False
+
+        def judged(r):
+            if util.depends_on(r.value, {rm}, fn):
+                return True
+            # the answer given when the conversion itself failed (NaN, infinity: C04.fpint) involves no rounding
+            par = getattr(r, "_parent", None)
+            while par is not None and par is not fn:
+                if isinstance(par, ast.ExceptHandler):
+                    return True
+                par = getattr(par, "_parent", None)
+            return any(no_rounding(t, pol) for t, pol in guards.guards_of(r))
+
         if arm_rets:
             for r, tests in arm_rets:
-                body_uses = util.depends_on(r.value, {rm}, fn)
                 arm_txt = " and ".join(tests)
                 R.check(
-                    body_uses,
+                    judged(r),
                     fn._module,
                     r,
                     f"concrete {name} honours its rounding mode in the arm `{arm_txt}`",
@@ -250,26 +280,24 @@ def c02_rmuse(R):
                     construct=f"{fn.name} arm `{arm_txt}` ignores rounding mode",
                 )
             continue
-        for x in ast.walk(fn):
-            if isinstance(x, ast.Name) and x.id == rm and isinstance(x.ctx, ast.Load):
-                # uses: anything but an isinstance() type test
-                par = getattr(x, "_parent", None)
-                if isinstance(par, ast.Call) and dotted(par.func) == "isinstance":
-                    continue
-                used = True
         for r in (x for x in ast.walk(fn) if isinstance(x, ast.Raise)):
             if "BackendError" in ast.unparse(r) and util.depends_on(r, {rm}, None):
                 refuses = True
             gs = guards.guards_of(r)
             if "BackendError" in ast.unparse(r) and any(rm in ast.unparse(t) for t, _ in gs):
                 refuses = True
+        rets = [x for x in walk_no_nested(fn) if isinstance(x, ast.Return) and x.value is not None]
+        loose = [r for r in rets if not judged(r)]
+        # a handler that refuses non-default modes may fold the default one
+        used = bool(rets) and not loose
         R.check(
             used or refuses,
             fn._module,
-            fn,
+            loose[0] if loose else fn,
             f"concrete {name} honours its rounding mode `{rm}`",
-            f"concrete {name} ({fn.name}) never reads its rounding-mode parameter `{rm}`: it folds as if the mode "
-            f"were round-to-nearest-even whatever the caller wrote, while the solver honours the mode",
+            f"concrete {name} ({fn.name}) returns `{norm(loose[0].value)[:60] if loose else ''}` on a path where the rounding-mode parameter "
+            f"`{rm}` is neither read nor known to be the default (and no operand is known to be a special value): it folds as if the "
+            f"mode were round-to-nearest-even whatever the caller wrote, while the solver honours the mode",
             construct=f"{fn.name} ignores rounding mode `{rm}`",
         )
     R.need(n >= 8, f"only {n} rounding-mode ops found")
